@@ -355,7 +355,8 @@ class C06(Prop):
                 raise G.Domain("installed= is a SpecifierSet argument")
             for ov, p in combos:
                 s = mk(ov)
-                for c, v in zip(inp["cands"], vers):
+                for c0, v, kind in zip(inp["cands"], vers, kinds):
+                    c = G.mk_items([c0], [kind])[0]          # str, Version, or an instance of a subclass of either
                     got = s.contains(c, prereleases=p, installed=True)
                     if not v.is_prerelease:
                         want = s.contains(c, prereleases=p)
